@@ -243,20 +243,21 @@ class VariableBoundVisitor(ModelVisitor):
         means the same on plain integers as it does for the solver"""
         try:
             e_signed = e.is_signed()
+            val = int(e.val())
+            width = max(int(fm.width), int(e.width()))
         except Exception:
             return False
-        if fm.is_signed == e_signed:
-            return True
+        if fm.is_signed and e_signed:
+            # Signed comparison: the value must not have wrapped
+            return val >= -(1 << (width-1)) and val < (1 << (width-1))
         elif fm.is_signed:
             # Unsigned comparison of a signed field
             return False
         else:
-            # A signed quantity compared with an unsigned field: fine
-            # unless it is negative
-            try:
-                return int(e.val()) >= 0
-            except Exception:
-                return False
+            # Unsigned comparison. A signed quantity is fine unless it
+            # is negative; arithmetic that leaves the width of the 
+            # comparison wraps for the solver
+            return val >= 0 and val < (1 << width)
     
     def lhsvar_rhsnre_propagator(self,
                     lhs_bounds,
